@@ -64,6 +64,8 @@ func (s lcStep) String() string {
 		return fmt.Sprintf("advance(%v)", s.D)
 	case "traffic", "sendAfterClose":
 		return fmt.Sprintf("%s#%d", s.Kind, s.Sess)
+	case "upgrade":
+		return fmt.Sprintf("upgrade#%d(to %s)", s.Sess, s.Car)
 	}
 	return s.Kind
 }
@@ -169,7 +171,7 @@ func genLC(rt *rapid.T, gates bool, known map[string]bool, col *Collector) []lcS
 			kinds = nil
 		}
 		if nsess > 0 {
-			kinds = append(kinds, "cause", "two", "traffic", "traffic", "advance", "advance", "sendAfterClose", "sendWindow", "closeWindow")
+			kinds = append(kinds, "cause", "two", "traffic", "traffic", "advance", "advance", "sendAfterClose", "sendWindow", "closeWindow", "upgrade")
 			if rapid.IntRange(0, 3).Draw(rt, l+".sc") == 0 {
 				kinds = append(kinds, "serverClose", "serverClose")
 			}
@@ -212,7 +214,7 @@ func genLC(rt *rapid.T, gates bool, known map[string]bool, col *Collector) []lcS
 			}
 			if k == "gateHandshake" {
 				st.Car = rapid.SampledFrom([]string{"websocket", "webtransport"}).Draw(rt, l+".gcar")
-				st.Cause = rapid.SampledFrom([]string{"drop", "dropInOpenFlush", "dropInOpenFlush", "none", "dropHeldInOnClose", "dropHeldInOnClose", "dropBeforeOpen", "dropBeforeOpen"}).Draw(rt, l+".gcause")
+				st.Cause = rapid.SampledFrom([]string{"drop", "dropInOpenFlush", "dropInOpenFlush", "none", "dropHeldInOnClose", "dropHeldInOnClose", "dropBeforeOpen", "dropBeforeOpen", "dropRegistered", "dropRegistered"}).Draw(rt, l+".gcause")
 			}
 			st.Rev = 4
 			if st.Car != "webtransport" && rapid.IntRange(0, 3).Draw(rt, l+".rev3") == 0 {
@@ -220,8 +222,11 @@ func genLC(rt *rapid.T, gates bool, known map[string]bool, col *Collector) []lcS
 			}
 			alive[nsess] = true
 			nsess++
-		case "cause", "two", "gateOnClose", "gateClose", "traffic", "sendAfterClose", "sendWindow", "closeWindow":
+		case "cause", "two", "gateOnClose", "gateClose", "traffic", "sendAfterClose", "sendWindow", "closeWindow", "upgrade":
 			st.Sess = rapid.IntRange(0, nsess-1).Draw(rt, l+".sess")
+			if k == "upgrade" {
+				st.Car = rapid.SampledFrom([]string{"websocket", "webtransport"}).Draw(rt, l+".upTo")
+			}
 			st.Cause = rapid.SampledFrom(lcCauses).Draw(rt, l+".cause")
 			st.Cause2 = rapid.SampledFrom(lcCauses).Draw(rt, l+".cause2")
 			if k == "gateClose" {
@@ -718,6 +723,9 @@ func (lw *lcWorld) handshake(st lcStep) {
 	} else if gated && st.Cause == "dropBeforeOpen" {
 		// the session is attached to its transport (whose reader runs) and not yet declared open
 		gp = lw.arm("socket.Construct.listening")
+	} else if gated && st.Cause == "dropRegistered" {
+		// the session is in the client table and counted, the server's close listener is not attached yet
+		gp = lw.arm("server.Handshake.registered")
 	} else if gated {
 		gp = lw.arm("server.Handshake.constructed")
 	}
@@ -785,6 +793,15 @@ func (lw *lcWorld) handshake(st lcStep) {
 			// the session object exists and is open, the server has not registered it yet
 			switch st.Cause {
 			case "drop":
+				if s.wc != nil {
+					s.wc.Drop()
+				} else {
+					s.tc.Drop()
+				}
+				s.addCause("drop")
+				Settle()
+			case "dropRegistered":
+				lw.stats["peer-gone-between-registration-and-the-server's-close-listener"] = true
 				if s.wc != nil {
 					s.wc.Drop()
 				} else {
@@ -1039,6 +1056,28 @@ func runLC(steps []lcStep) (*lcWorld, bubbleResult) {
 						lw.f03("%s: message from a healthy session's client was not delivered", what)
 					}
 				}
+			case "upgrade":
+				// a healthy polling session's client switches to websocket / webtransport by the book; the session
+				// lives on over the new transport (and none of the attempt's timers may touch it later)
+				if s == nil || s.sr == nil || s.pc == nil || len(s.causes) > 0 || len(s.sr.Closes) > 0 || s.silent || s.noPoll || s.vanished || s.sr.Sock.ReadyState() != "open" {
+					break
+				}
+				lw.service(s)
+				wc, tc, err := Upgrade(w, s.pc, st.Car)
+				if err != nil || s.sr.Sock.Transport().Name() != st.Car {
+					lw.f03("%s: conformant upgrade of a healthy session to %s: %v (transport now %s, closes %v)", what, st.Car, err, s.sr.Sock.Transport().Name(), s.sr.Closes)
+					break
+				}
+				s.pc, s.wc, s.tc, s.car = nil, wc, tc, st.Car
+				s.answered = 0
+				if s.rev == 3 {
+					// revision 3: the switch leaves the session without a heartbeat deadline until the client's next
+					// ping (the statement of C07 excludes that stretch); a conformant client pings right away
+					s.sendPkt(ctl(tPing))
+					Settle()
+					lw.service(s)
+				}
+				lw.stats["upgraded-session"] = true
 			case "gateTableDelete":
 				// the closing session's removal from the client table is held between its lock-free miss and
 				// taking the table's lock (the session is new since the table was last consolidated), while other
@@ -1259,6 +1298,10 @@ func runLC(steps []lcStep) (*lcWorld, bubbleResult) {
 				w.Srv.Close()
 				Settle()
 				if len(w.RegistryKeys()) != 0 || w.Srv.ClientsCount() != 0 {
+					// (a session that was already closing gracefully, its close packet waiting for a poll, outlives the
+					// shutdown by up to the close timeout: until it has closed it is live, registered and counted)
+					lw.stats["session-outlives-the-shutdown"] = true
+					lw.checkAll(what + " (right after the shutdown)")
 					// sessions in 'closing' with a buffered close may legitimately still be finishing: let them
 					time.Sleep(31 * time.Second)
 					Settle()
@@ -1358,7 +1401,7 @@ func TestC03Lifecycle(t *testing.T) {
 			}
 		})
 	}
-	req := []string{"close-timeout-before-the-heartbeat", "server-write-fails-before-its-reader-notices", "peer-stops-reading", "upgrade-packet-inside-the-close-listener", "closed-inside-the-connection-listener", "session-closed-inside-Send", "carrier.polling", "carrier.websocket", "carrier.webtransport", "two-causes-same-instant", ">=2-causes-on-one-session", "activity-after-close", "stayed-open", "server-close", "close-with-buffered-data-and-a-client-that-keeps-reading", "close-inside-a-packet-listener", "close-inside-a-data-listener"}
+	req := []string{"upgraded-session", "close-timeout-before-the-heartbeat", "server-write-fails-before-its-reader-notices", "peer-stops-reading", "upgrade-packet-inside-the-close-listener", "closed-inside-the-connection-listener", "session-closed-inside-Send", "carrier.polling", "carrier.websocket", "carrier.webtransport", "two-causes-same-instant", ">=2-causes-on-one-session", "activity-after-close", "stayed-open", "server-close", "close-with-buffered-data-and-a-client-that-keeps-reading", "close-inside-a-packet-listener", "close-inside-a-data-listener"}
 	if !known[sigDoubleClose] {
 		req = append(req, "second-cause-inside-OnClose-window")
 	}
@@ -1366,7 +1409,7 @@ func TestC03Lifecycle(t *testing.T) {
 		req = append(req, "cause-inside-Close-window")
 	}
 	if !known[sigDiedInHS] {
-		req = append(req, "cause-during-handshake", "close-half-done-while-the-handshake-registers-the-session", "peer-gone-before-the-session-is-declared-open")
+		req = append(req, "cause-during-handshake", "close-half-done-while-the-handshake-registers-the-session", "peer-gone-before-the-session-is-declared-open", "peer-gone-between-registration-and-the-server's-close-listener")
 	}
 	col.RequireClasses(t, req...)
 }
@@ -1401,7 +1444,7 @@ func TestC04Registry(t *testing.T) {
 	}
 	req := []string{"closed-session-named-with-transport-polling", "closed-session-named-with-transport-websocket", "server-close", "shutdown>=2-sessions", "activity-after-close", "table-consolidated-inside-delete-window", "table-consolidated-inside-lookup-window", "closed-inside-the-connection-listener", "server-write-fails-before-its-reader-notices", "peer-stops-reading"}
 	if !known[sigDiedInHS] {
-		req = append(req, "cause-during-handshake", "close-half-done-while-the-handshake-registers-the-session", "peer-gone-before-the-session-is-declared-open")
+		req = append(req, "cause-during-handshake", "close-half-done-while-the-handshake-registers-the-session", "peer-gone-before-the-session-is-declared-open", "peer-gone-between-registration-and-the-server's-close-listener")
 	}
 	col.RequireClasses(t, req...)
 }
